@@ -3,7 +3,9 @@ from __future__ import annotations
 
 import hashlib
 import io
+import os
 import resource
+import socket
 import traceback
 
 from .. import common, describe, gen, refcodec, shard, steps, walk
@@ -68,6 +70,7 @@ def c06_worker(res: Result, i: int, n: int) -> None:
     st.start()
     by_role: dict[str, int] = {}
     distinct: set[bytes] = set()
+    closers: list = []
     per_class = 7 if res.tier == "quick" else 200
     max_ratio = 0.0
     try:
@@ -122,11 +125,34 @@ def c06_worker(res: Result, i: int, n: int) -> None:
                         # the stream types of the io module, which code may single out with isinstance(): a raw (unbuffered) stream - here
                         # one that ends after c bytes, as a closed connection does - and a BufferedReader over it
                         kinds += ("raw", "buffered")
+                    if c % 53 == 11 and len(raw) <= 60000:
+                        # ... and the operating system's own raw streams (io.FileIO over a pipe, socket.SocketIO), whose writing end is
+                        # closed after the cut
+                        kinds += ("os_pipe_raw", "os_socket_raw")
                     for kind in kinds:
                         res.count("cuts")
                         res.count(f"cuts_via_{kind}")
-                        src = (ReadOnlySource(raw, cut=c) if kind == "ro" else io.BytesIO(raw[:c]) if kind == "bytesio"
-                               else _EndedRaw(raw[:c]) if kind == "raw" else io.BufferedReader(_EndedRaw(raw[:c]), buffer_size=rng.choice((16, 8192))))
+                        for cl in closers:
+                            try:
+                                cl()
+                            except OSError:
+                                pass
+                        closers = []
+                        if kind == "os_pipe_raw":
+                            rfd, wfd = os.pipe()
+                            os.write(wfd, raw[:c])
+                            os.close(wfd)
+                            src = os.fdopen(rfd, "rb", 0)
+                            closers.append(src.close)
+                        elif kind == "os_socket_raw":
+                            sa, sb = socket.socketpair()
+                            sa.sendall(raw[:c])
+                            sa.close()
+                            src = sb.makefile("rb", buffering=0)
+                            closers += [src.close, sb.close]
+                        else:
+                            src = (ReadOnlySource(raw, cut=c) if kind == "ro" else io.BytesIO(raw[:c]) if kind == "bytesio"
+                                   else _EndedRaw(raw[:c]) if kind == "raw" else io.BufferedReader(_EndedRaw(raw[:c]), buffer_size=rng.choice((16, 8192))))
                         st.arm(_budget(c))
                         try:
                             out = reader(src)
@@ -498,9 +524,12 @@ claimed = {{}}
 for name, (cls, data) in {{"compact array claiming 2^24 items": (MetadataRequest, refcodec.uvarint(2**24 + 1)),
                           "legacy array claiming 2^24 items": (LegacyMetadata, (2**24).to_bytes(4, "big")),
                           "legacy array claiming 2^31-1 items": (LegacyMetadata, (2**31 - 1).to_bytes(4, "big")),
-                          "compact bytes claiming 2^30 bytes": (Flexible, refcodec.uvarint(2**30 + 1))}}.items():
+                          "compact bytes claiming 2^30 bytes": (Flexible, refcodec.uvarint(2**30 + 1)),
+                          "unknown tagged field claiming 2^31 bytes": (ApiVersionsRequest, b"\\x02a\\x02b\\x01" + refcodec.uvarint(77) + refcodec.uvarint(2**31)),
+                          "legacy bytes claiming 2^31-1 bytes": (Legacy, (2**31 - 1).to_bytes(4, "big"))}}.items():
     reader = entity_reader(cls)
     tracemalloc.start()
+    t0 = time.process_time_ns()
     try:
         reader(io.BytesIO(data + b"\\x00" * 8))
         outcome = "returned"
@@ -508,9 +537,10 @@ for name, (cls, data) in {{"compact array claiming 2^24 items": (MetadataRequest
         outcome = "MemoryError"
     except Exception as exc:
         outcome = type(exc).__name__
+    spent = time.process_time_ns() - t0
     peak = tracemalloc.get_traced_memory()[1]
     tracemalloc.stop()
-    claimed[name] = [peak, outcome]
+    claimed[name] = [peak, outcome, spent]
 
 count_res = {{}}
 gc.disable()
@@ -575,7 +605,11 @@ def scaling_probe(res: Result) -> None:
     growths = {name: [round(growth(r[name]), 2) for r in rounds] for name in rounds[0]}
     res.coverage["scaling_probe"] = {"sizes": [small, big], "growth_of_decode_time_over_copy_time_by_round": growths, "cpu_ns_decode_and_copy_last_round": rounds[-1]}
     res.coverage["scaling_probe"]["claimed_lengths_peak_bytes_and_outcome"] = claimed
-    for name, (peak, outcome) in claimed.items():
+    for name, (peak, outcome, spent) in claimed.items():
+        if spent > 3_000_000_000:
+            # (microseconds on the unchanged tree; three CPU seconds for a dozen bytes is five orders of magnitude away, not a timing call)
+            res.violation(f"time-by-claimed-length:{name.split()[0]}", f"{name} (a dozen input bytes): the decoder spent {spent / 1e9:.1f} CPU seconds before it gave up ({outcome}): "
+                          "time in proportion to a claimed length, not to the input", {"shape": name, "cpu_ns": spent, "outcome": outcome})
         if peak > (4 << 20) or outcome == "MemoryError":
             res.violation(f"allocation-by-claimed-length:{name.split()[0]}", f"{name} (a dozen input bytes): the decoder set aside {peak} bytes before failing ({outcome}): "
                           "memory (and the time to clear it) in proportion to a claimed length, not to the input", {"shape": name, "peak": peak, "outcome": outcome})
